@@ -217,6 +217,7 @@ bool ops_core(World &w, const Op &o) {
   }
   if (k == "set_subtype") {
     hwloc_obj_t obj = sel_obj(R, o.u("o")); bool null = o.u("v") % 5 == 0; std::string v = sel_string(o.u("v"), 8);
+    if (o.u("v") % 3 == 1) { v = "NVSwitch"; if (o.u("io") & 1) obj = sel_obj(R, o.u("o"), 4); }   // switch ports for the distances transforms
     errno = 0; int rc = hwloc_obj_set_subtype(t, obj, null ? nullptr : v.c_str()); int e = errno;
     r.ev("set_subtype r%d gp=%llu -> %d", ri, (unsigned long long)obj->gp_index, rc);
     if (R.adopted) { if (rc == 0 || e != EPERM) viol0(w, "C19", "shm.modify_not_refused", "set_subtype on an adopted topology returned %d errno %d", rc, e); return true; }
